@@ -38,6 +38,7 @@ func smallScenarios() []smallScenario {
 		"openfile " + f + " 1 0", "openfile " + f + " 0 0", "openfile " + f + " 513 0", "readfile " + f, "writefile " + f + " " + h("W") + " 420",
 		"chmod " + f + " 438", "file 0 truncate 6", "file 0 write " + h("XY"), "file 1 truncate 6", "file 1 read 8", "chtimes " + f + " 1500000000000000000",
 		"remove " + f, "rename " + f + " " + h("/tmp/g"), "link " + f + " " + h("/tmp/l"),
+		"file 0 chown 1001 1001", "file 0 chown -1 1001", "file 1 chown 0 -1", "file 0 chmod 438",
 	}
 	d := h("/tmp/d")
 	dirAlpha := []string{
@@ -77,6 +78,8 @@ func smallScenarios() []smallScenario {
 		"link " + h("/d/f") + " " + h("/e/h"), "link " + h("/lf") + " " + h("/e/k"), "removeall " + h("/d"), "removeall " + h("/ld"), "mkdirall " + h("/e/x/y") + " 493",
 		"mkdirall " + h("/ld/p/q") + " 493", "writefile " + h("/ld/w") + " " + h("W") + " 420", "readfile " + h("/lf"), "readdir " + h("/ld"), "lstat " + h("/e/l"),
 		"truncate " + h("/lf") + " 0", "chmod " + h("/ld") + " 448", "symlink " + h("../e") + " " + h("/d/up"), "stat " + h("/d/up/f"),
+		// operands BELOW a regular file
+		"mkdirall " + h("/d/f/x") + " 493", "mkdir " + h("/d/f/x") + " 493", "writefile " + h("/d/f/x") + " " + h("X") + " 420", "remove " + h("/d/f/x"),
 	}
 	// the budget of followed links: a chain /c1 → /c2 → … → /c42 → /dd, so that /c<i>/s follows 43-i links before the
 	// last element s (a link itself, followed or not according to the call)
